@@ -155,8 +155,13 @@ func (e *Env) FaultN(kind string, n int) {
 	}
 }
 func (e *Env) Probe(name string) { e.probes[name]++ }
-func (e *Env) Steps(n int)       { e.steps += int64(n) }
-func (e *Env) Nontrivial()       { e.nontrivial = true }
+func (e *Env) ProbeN(name string, n int) {
+	if n > 0 {
+		e.probes[name] += n
+	}
+}
+func (e *Env) Steps(n int) { e.steps += int64(n) }
+func (e *Env) Nontrivial() { e.nontrivial = true }
 func (e *Env) Sig(parts ...any) {
 	for _, p := range parts {
 		e.sig = tape.Mix(e.sig, tape.HashString(fmt.Sprint(p)))
